@@ -548,7 +548,7 @@ def c11_job(chk, rng, i):
                 return (kind, rng.rint(1, nslot - 1), si, rng.chance(75))
             return (kind, rng.rint(1, nslot - 1), si)
         if t < 11:
-            return ("gflush", rng.below(nslot))
+            return (rng.choice(["gflush", "greflush"]), rng.below(nslot))
         return ("gpush", rng.below(nslot))
     for r in case["rules"]:
         if r["act"] == "|":
@@ -579,6 +579,16 @@ def c11_job(chk, rng, i):
                               "trail": None, "act": [("if", 77, 100, 30, [("reject",)])]})
         case["opts"]["uses_reject"] = True
     case["wrap"] = [("pop",)] * 60
+    reuse = (i % 4 == 1)
+    if reuse:
+        # exhausted buffers are kept and used again: at end of input yywrap switches to
+        # another buffer (the exhausted one stays alive), later the file behind it is rewound,
+        # the buffer flushed and switched back to; sources end in the middle of a token
+        case["driver"]["init"] = [("open_buf", 0), ("gcreate", 1, 1, 0)]
+        case["wrap"] = [("gswitch_or_pop", 1), ("gswitch_or_pop", 0)] * 30
+        cyc = [[("x", ("greflush", 0))], [("x", ("gswitch", 0))], [("x", ("greflush", 1))],
+               [("x", ("gswitch", 1))]]
+        case["driver"]["after"] = (cyc * 3) + case["driver"]["after"]
     case["opts"]["yylineno"] = (i % 3 == 0)
     ctx = gen.ctx_of(case)
     inputs = []
@@ -588,6 +598,8 @@ def c11_job(chk, rng, i):
         if rng.chance(50):
             j = rng.below(nstr)
             strs[j] = strs[j][:5] + b"\x00" + strs[j][5:]
+        if reuse:
+            srcs = [x.rstrip(b"\n") + rng.choice([b"", b"ab", b"x"]) for x in srcs]
         inp = {"sources": srcs, "strings": strs, "sched": rng.choice([[0], [1], [2, 3], [7]])}
         if small_first:
             inp["bufsize"] = rng.choice([4, 8, 16])
